@@ -6,7 +6,7 @@ from ..core import Result
 PID = "C01"
 LEVEL = "exploration"
 RULE = (
-    'Hypothesis-generated workflows (1-8 tasks, thorough 1-12; every edge drawn from FS/SS/FF/SF; work amounts incl. 0, default progress incl. 1; 0-6 workers in 1-3 teams with skills incl. 0/missing, solo flags, fixed-ID lists, per-worker and project-wide absence lists; all nine task rules; both auto-task flags; thorough adds facilities) simulated once under the step observer. Oracle: invariant over the history of live snapshots (4 per step) and over the state logs: rank never decreases, each transition happens in its phase, FS/SS gate at the first non-NONE snapshot, FF/SF gate at the first FINISHED snapshot, log entry == live state modulo the absence display rule. Non-trivial = at least one non-FS edge into a non-exempt task and at least one task whose start or finish was actually held back by a predecessor; distinct by canonical spec hash.'
+    'Hypothesis-generated workflows (1-8 tasks, thorough 1-12; every edge drawn from FS/SS/FF/SF; work amounts incl. 0, default progress incl. 1; 0-6 workers in 1-3 teams with skills incl. 0/missing, solo flags, fixed-ID lists, per-worker and project-wide absence lists; all nine task rules; both auto-task flags; thorough adds facilities) simulated once under the step observer. Oracle: invariant over the history of live snapshots (4 per step) and over the state logs: rank never decreases, FS/SS gate at the first non-NONE snapshot, FF/SF gate at the first FINISHED snapshot, log entry == live state modulo the absence display rule. Non-trivial = at least one non-FS edge into a non-exempt task and at least one task whose start or finish was actually held back by a predecessor; distinct by canonical spec hash.'
 )
 ASSUMPTIONS = [
     "skill standard deviations are 0 (deterministic skills); unit_time=1; task_performed_mode='multi-workers'",
